@@ -40,6 +40,9 @@ class Subset(Harness):
             elif self.variant == "objmask":
                 # a boolean column that went through a join or rbind is an object array of Python bools
                 inp["cond"] = {"kind": "mask", "mask": Arr("object", [symx.SymPyBool(symx.sym_bool(f"m{i}")) for i in range(n)])}
+            elif self.variant == "kwfloat":
+                # colname=value with a Python float against an int64 column: NumPy compares in float64, as the mask x == value does
+                inp["cond"] = {"kind": "kw", "col": "x", "value": symx.SymPyFloat(symx.sym_f64("v"))}
             else:
                 if self.kind == "O":
                     inp["cond"] = {"kind": self.variant, "col": "x", "value": symx.SymPyInt(symx.sym_i64("v"))}
@@ -144,6 +147,9 @@ class Subset(Harness):
                 def sel(i):
                     m = c["mask"].cells[i]
                     return m.e if isinstance(m, symx.SymBool) else (z3.BoolVal(m) if isinstance(m, bool) else m)
+            elif self.variant == "kwfloat":
+                vf = c["value"].e
+                sel = lambda i: z3.fpEQ(z3.fpSignedToFP(z3.RNE(), X[i], z3.Float64()), vf)
             else:
                 v = c["value"]
                 vc = as_cell(v, k) if k != "O" else (v if not isinstance(v, int) or isinstance(v, symx.SymI64) else symx.SymPyInt(v))
@@ -203,6 +209,7 @@ def harnesses(tier):
             hs.append(Subset("filter", k, N, "kw2"))
             hs.append(Subset("filter_out", k, N, "kw2"))
     hs.append(Prepared(Subset("unique", "U" if not quick else "T", 2))); hs.append(Prepared(Subset("drop_na", "T", 2)))
+    hs.append(Subset("filter", "i", 2, "kwfloat")); hs.append(Subset("filter_out", "i", 2, "kwfloat"))
     hs.append(Subset("filter", "f", N, "mask"))
     hs.append(Subset("filter_out", "f", N, "mask"))
     hs.append(Subset("filter", "f", N, "objmask")); hs.append(Subset("filter_out", "f", N, "objmask"))
